@@ -681,6 +681,8 @@ def special_programs():
     add('late-pragma-old', 'library A { function f(uint z) internal { require(z > 0, "this message is definitely longer than thirty-two bytes"); } }\n'
         'pragma solidity 0.7.6;\ncontract B { function g(uint z) public { require(z > 0, "short"); } }')
     add('gt-pragma', 'pragma solidity >0.8.3;\ncontract A { using SafeMath for uint; function f(uint z) public { require(z > 0, "x"); z = z.add(2); } }')
+    add('gt-pragma-long', 'pragma solidity >0.8.3;\ncontract A { function f(uint z) public { require(z > 0, "this message is definitely longer than thirty-two bytes"); } }')
+    add('range-pragma-long', 'pragma solidity >=0.7.0 <0.8.4;\ncontract A { function f(uint z) public { require(z > 0, "this message is definitely longer than thirty-two bytes"); } }')
     add('gt-pragma-space', 'pragma solidity > 0.7.6;\ncontract A { using SafeMath for uint; function f(uint z) public { require(z > 0, "x"); z = z.add(2); } }')
     add('major-1', 'pragma solidity 1.7.3;\ncontract A { using SafeMath for uint; function f(uint z) public { require(z > 0, "x"); z = z.add(2); } }')
     add('multiline-require', PRELUDE + 'contract A { function f(uint a, uint b, uint c) public {\n  require(\n    a == b && b == c,\n    "msg"\n  );\n'
